@@ -235,6 +235,9 @@ class ContractUse:
         loc = interp.bind(fn, args, kwargs)
         c = Builder(interp, 'assume')
         for case in sorted(self.cases, key=lambda cs: -getattr(cs, 'priority', 0)):
+            norm = getattr(case, 'normalize_args', None)
+            if norm is not None:
+                loc = norm(c, **loc)
             acc = getattr(case, 'accepts', None)
             if acc is not None and not acc(c, **loc):
                 continue
